@@ -277,7 +277,14 @@ def _value_matches(value, raw, c, enc):
         if t in ("int", "long"):
             return (isinstance(value, int) and value == int(text)), f"int({text!r:.20})"
         if t == "decimal":
-            return (isinstance(value, decimal.Decimal) and value == decimal.Decimal(text)), f"Decimal({text!r:.20})"
+            want = decimal.Decimal(text)
+            if not isinstance(value, decimal.Decimal):
+                same = False
+            elif value.is_nan() or want.is_nan():
+                same = value.compare_total(want) == 0      # (signalling) NaNs never compare equal with ==
+            else:
+                same = value == want
+            return same, f"Decimal({text!r:.20})"
         if t == "datetime":
             want = datetime.datetime.strptime(text, c.get("field_date_format", "%y%m%d"))
             return (value == want), f"strptime({text!r:.20})"
